@@ -100,3 +100,11 @@ Theorem C04_block_starts_are_the_source : forall line,
   g_Heading_start line = heading_start line /\ g_CodeFence_start line = codefence_start line.
 Proof. exact block_starts_regenerated. Qed.
 Print Assumptions C04_block_starts_are_the_source.
+
+(* ... and so are ListItem.parse_marker, ListItem.parse_continuation and List.check_interrupts_paragraph (as a function of
+   the line it peeks at): the list readers of the model call exactly what the source defines now. *)
+Theorem C04_list_markers_are_the_source : forall line prepend,
+  g_ListItem_parse_marker line = parse_marker line /\ g_ListItem_parse_continuation line prepend = parse_continuation line prepend /\
+  g_List_check_interrupts_paragraph line = list_interrupts line.
+Proof. exact list_markers_regenerated. Qed.
+Print Assumptions C04_list_markers_are_the_source.
